@@ -153,8 +153,9 @@ def ssa_python(src):
 
 # ------------------------------------------------------------------ programs
 
-PY_KINDS_UN = ["absolute", "negative", "positive", "sqrt", "exp", "log", "log1p", "sin", "cos", "tan", "sign", "floor", "ceil", "truncate", "atan", "asinh", "expm1", "log2", "log10", "tanh"]
-PY_KINDS_BIN = ["add", "subtract", "multiply", "divide", "maximum", "minimum", "atan2", "copysign", "pow", "remainder"]
+PY_KINDS_UN = ["absolute", "negative", "positive", "sqrt", "exp", "log", "log1p", "sin", "cos", "tan", "sign", "floor", "ceil", "truncate", "atan", "asinh", "expm1", "log2", "log10", "tanh",
+               "acos", "acosh", "asin", "atanh", "cosh", "sinh", "exp2", "square"]
+PY_KINDS_BIN = ["add", "subtract", "multiply", "divide", "maximum", "minimum", "atan2", "copysign", "pow", "remainder", "hypot", "nextafter", "floor_divide"]
 CMP = ["lt", "le", "gt", "ge", "eq", "ne"]
 CONSTS = [("c", 0), ("c", 1), ("c", 0.5), ("c", -0.0), ("c", -2.5), ("c", 2), ("c", float("inf")), ("c", -float("inf")), ("n", "largest"), ("n", "smallest"), ("n", "posinf"), ("n", "neginf"), ("n", "pi"), ("n", "eps")]
 
@@ -224,6 +225,10 @@ def lattice_programs():
     ux, uy = ("upcast", x), ("upcast", y)
     progs += [ux, ("downcast", ux), ("downcast", ("add", ("multiply", ux, uy), ux)), ("downcast", ("multiply", ("add", ux, uy), ("subtract", ux, uy))), ("downcast", ("sqrt", ("add", ("multiply", ux, ux), ("multiply", uy, uy)))),
               ("add", ("downcast", ("multiply", ux, uy)), x), ("upcast", ("add", x, y)), ("is_finite", x), ("select", ("is_finite", s), s, x), ("round", x)]
+    # complex construction / projection on real arguments
+    cz = ("complex", x, y)
+    progs += [("real", cz), ("imag", cz), ("real", ("conjugate", cz)), ("imag", ("conjugate", cz)), ("absolute", cz), ("add", ("real", cz), ("imag", ("negative", cz))),
+              ("imag", ("multiply", cz, cz)), ("real", ("add", cz, ("conjugate", cz)))]
     progs += named_reference_programs()
     progs += twin_constant_programs()
     seen, out = set(), []
